@@ -93,6 +93,9 @@ def inventory(facts):
                 if k is None:
                     w = t.get("fn") or ""
                     k = classify_callee(w)
+                # a fixed-width Ratio parsed from text is reduced in that width: the reduction can overflow whatever the radix
+                if k == "radix" and re.search(r"Ratio<(i8|i16|i32|i64|isize)>", t.get("fnargs") or ""):
+                    k = "ratio"
                 if k is not None:
                     name = short_path(c)
                     sites.append(Site(f, bb, "call:" + k, name, t["loc"], t["args"], t))
@@ -1319,6 +1322,21 @@ def r06u(ctx, rep, rule="R06u"):
         errs = [1 for b in region for st in chk.blocks[b]["stmts"] if st["rv"]["k"] == "agg" and st["rv"].get("adt") == "marwood::error::Error"]
         if errs:
             good = t
+    # the repetition itself checks that it consumes matches
+    pos = [bb for bb, t in ex.calls() if (callee(t) or "").startswith("marwood::vm::transform::PatternEnvironment::") and
+           "Vec<std::option::Option<usize>>" in (facts.fns[callee(t)].locals[0] if callee(t) in facts.fns else "")]
+    cmp_ = [bb for bb, t in ex.calls() if re.search(r"Vec<.*Option<usize>.*> as std::cmp::PartialEq.*>::(eq|ne)$", t.get("fnargs") or "")]
+    body = set()
+    for src, h in ex.back_edges():
+        body |= (ex.reach_from(h) & ex.reach_back(src)) | {h, src}
+    k3 = rule + "|expand|repetition-consumes-a-match"
+    if len(pos) >= 2 and any(b in body for b in cmp_):
+        rep.ok(rule, k3, "Transform::expand compares the positions of the ellipsis-bound variables before and after each repetition",
+               [ex.span])
+    else:
+        rep.fail(rule, k3, "Transform::expand repeats a sub-template as long as it expands, without checking that the repetition consumed a "
+                 "match: a variable used under more ellipses than it was bound under — ((x ...) ...) for a pattern (x ...) — is "
+                 "re-expanded from the start for ever", [ex.span])
     if good is not None:
         rep.ok(rule, key, "check_template_syntax rejects a template whose ellipsis repeats something that contains no variable bound "
                "under an ellipsis", [good["loc"]])
@@ -1327,6 +1345,47 @@ def r06u(ctx, rep, rule="R06u"):
                  "ellipsis (it never consults Pattern::is_expanded_variable on the peek-is-ellipsis path, or does not reject): "
                  "Transform::expand then repeats that sub-template for ever — (define-syntax m (syntax-rules () ((_ a) (list a ...)))) "
                  "(m 1) never returns and exhausts memory", [chk.span])
+
+
+def r06w(ctx, rep, rule="R06w"):
+    from .. import shapes
+    facts = ctx["facts"]
+    rep.rule(rule, "global bindings are keyed by symbols: Vm::global_symbols unwraps every key of the global binding table as a "
+             "symbol, so wherever the compiler creates a binding for a name taken from program text (compile_define, "
+             "compile_define_syntax, compile_set, compile_symbol_expression) the cell interned as the key is under a dominating "
+             "is_symbol test or Symbol match arm. (define ((f a) b) 1) otherwise creates a binding keyed by a list and a later "
+             "call of the public global_symbols() panics.")
+    n = 0
+    for nm in ("compile_define", "compile_define_syntax", "compile_set", "compile_symbol_expression"):
+        f = facts.fn("marwood::vm::compile::<impl marwood::vm::Vm>::" + nm)
+        if f is None:
+            continue
+        gets = [bb for bb, t in f.calls() if (callee(t) or "").endswith("GlobalEnvironment::get_binding")]
+        if not gets:
+            continue
+        for bb in gets:
+            n += 1
+            key = "%s|%s" % (rule, nm)
+            g = shapes.guard_shapes(f, bb, None, 3)
+            ok = any(x.startswith("cell::Cell::is_symbol(") and x.endswith("=T") for x in g)
+            sym_idx = variant_index(facts.adts.get("marwood::cell::Cell", {"variants": []}), "Symbol")
+            ok = ok or any(re.match(r"disc\(.*\)=%s$" % sym_idx, x) and "Option" not in x and "Result" not in x for x in g)
+            # compile_symbol_expression is only called on the Symbol arm of compile_expression's dispatch
+            if not ok and nm == "compile_symbol_expression":
+                ce = facts.fn("marwood::vm::compile::<impl marwood::vm::Vm>::compile_expression")
+                if ce is not None:
+                    calls = [b2 for b2, t2 in ce.calls() if callee(t2) == f.path]
+                    ok = bool(calls) and all(any(re.match(r"disc\(a\d\)=%s$" % sym_idx, x) for x in shapes.guard_shapes(ce, b2, None, 2)) for b2 in calls)
+            # a macro's keyword is validated where the transformer is built
+            if not ok and nm == "compile_define_syntax":
+                tn = facts.fn("marwood::vm::transform::Transform::try_new")
+                ok = tn is not None and any(callee(t2) == "marwood::cell::Cell::is_symbol" for b2, t2 in tn.calls()) and \
+                    any(callee(t2) == tn.path and f.dominates(b2, bb) for b2, t2 in f.calls())
+            (rep.ok if ok else rep.fail)(
+                rule, key, "%s creates a global binding only for a name established to be a symbol" % nm if ok else
+                "%s creates a global binding for a name it has not established to be a symbol: a list, number or string in the name "
+                "position becomes a key of the global table, and Vm::global_symbols() panics on it" % nm, [f.span])
+    rep.floor(rule, "compiler sites that create a global binding", n, 3)
 
 
 def run(ctx, rep):
@@ -1339,6 +1398,7 @@ def run(ctx, rep):
     r06q(ctx, rep)
     r06t(ctx, rep)
     r06u(ctx, rep)
+    r06w(ctx, rep)
     # R06v: the n-ary list walks of the prelude need a list to end on
     from . import C14
     sub = type(rep)(rep.prop)
